@@ -530,7 +530,18 @@ func (c *sseClientConn) Write(ctx context.Context, msg jsonrpc.Message) error {
 	}
 	defer resp.Body.Close()
 	if resp.StatusCode < 200 || resp.StatusCode >= 300 {
-		return fmt.Errorf("failed to write: %s", resp.Status)
+		err := fmt.Errorf("failed to write: %s", resp.Status)
+		if req, ok := msg.(*jsonrpc.Request); ok && req.Method == methodDiscover {
+			// A legacy server that has never heard of server/discover may
+			// refuse the POST outright (older servers validate the method
+			// first). That rejects this one message, it does not break the
+			// connection: wrap the error with ErrRejected so that the
+			// jsonrpc2 layer doesn't set writeErr, which would prevent the
+			// legacy initialize fallback from succeeding on the same
+			// connection (as the streamable client does).
+			err = fmt.Errorf("%w: %w", err, jsonrpc2.ErrRejected)
+		}
+		return err
 	}
 	return nil
 }
